@@ -21,7 +21,7 @@
    uint32 first).
 
    Compared once (2026-09-28, go1.23.5, by vm_compute on a generated scratch file, see
-   tools/gounquote2v/gridcheck.go.txt) with utf8.EncodeRune, utf16.IsSurrogate and utf16.DecodeRune:
+   tools/gounquote2v/gridcheck/main.go: 5199 runes, 1600 pairs) with utf8.EncodeRune, utf16.IsSurrogate and utf16.DecodeRune:
      EncodeRune / IsSurrogate on -5..300, on +-3 around every power of two up to 2^31 and around 0x7f 0x80
        0x7ff 0x800 0xd7ff 0xd800 0xdbff 0xdc00 0xdfff 0xe000 0xfffd 0xffff 0x10000 0x10ffff 0x110000
        0x7fffffff, on every 251st value up to 0x120000, and on min int32;
